@@ -50,7 +50,7 @@ pub fn meta(tier: Tier) -> CheckMeta {
             "executor panics are pure functions of inputs; abort of the whole runtime is out of scope".into(),
             "a post-mortem step that does not finish within 20 s is a deadlock only if the process is quiescent, else inconclusive".into(),
         ],
-        parts: vec![PartSpec { name: "native", nshards: 16, budget_s: tier.pick(400, 3000), env: vec![], program: None }],
+        parts: vec![PartSpec { name: "native", nshards: 16, budget_s: tier.pick(400, 3000), env: vec![], program: None, prepare: None, sanitizer: None }],
         must_be_nonzero: vec![
             ("cancel_points_inside_operation", "no cancellation strictly inside an operation"),
             ("hook_yields", "pre: sites never yielded"),
@@ -63,6 +63,9 @@ struct CancelAfter<F> {
     inner: Option<Pin<Box<F>>>,
     left: usize,
     polls: usize,
+    /// drop the operation right after its k-th poll returned Pending (what
+    /// `select!` against a ready branch does) instead of at the next wake-up
+    eager: bool,
 }
 
 impl<F: Future> Future for CancelAfter<F> {
@@ -82,12 +85,16 @@ impl<F: Future> Future for CancelAfter<F> {
                 self.inner = None;
                 Poll::Ready((Some(v), self.polls))
             }
+            Poll::Pending if self.eager && self.left == 0 => {
+                self.inner = None; // drop the operation while it is suspended
+                Poll::Ready((None, self.polls))
+            }
             Poll::Pending => Poll::Pending,
         }
     }
 }
 
-fn cancel_after<F: Future>(f: F, k: usize) -> CancelAfter<F> { CancelAfter { inner: Some(Box::pin(f)), left: k, polls: 0 } }
+fn cancel_after<F: Future>(f: F, k: usize, eager: bool) -> CancelAfter<F> { CancelAfter { inner: Some(Box::pin(f)), left: k, polls: 0, eager } }
 
 #[derive(Clone, Debug)]
 enum Target {
@@ -193,7 +200,14 @@ struct PointResult {
 }
 
 /// Run the target with cancellation after `k` polls, then the post-mortem.
-async fn run_point<B: Backend>(b: &B, prog: &Arc<Program>, seed: u64, target: &Target, k: usize, shared: Option<&Arc<crate::reckv::Shared>>, prerepair_target: bool) -> PointResult {
+async fn run_point<B: Backend>(b: &B, prog: &Arc<Program>, seed: u64, target: &Target, k: usize, shared: Option<&Arc<crate::reckv::Shared>>, prerepair_target: bool, immediate: bool, raw: Option<bool>) -> PointResult {
+    // raw = Some(settle): eager cancellation, first re-query round without the user-level
+    // firewall repair, then stop (differential mode, see the worker)
+    if std::env::var("QV_C05_TRACE").is_ok() {
+        eprintln!("TRACE C05 point target={target:?} k={k} immediate={immediate} raw={raw:?} pre={prerepair_target}");
+    }
+    let eager = immediate || raw.is_some();
+    let settle = raw.unwrap_or(!immediate);
     let prog_ref: &Program = prog;
     let mut viol: Vec<(String, Json)> = Vec::new();
     let mut inconclusive = None;
@@ -217,14 +231,14 @@ async fn run_point<B: Backend>(b: &B, prog: &Arc<Program>, seed: u64, target: &T
                 prerepair_tfc(&t, &crate::eng::topo_order(prog_ref, &all)).await;
                 hooks::set_yield(YieldPolicy::AllPre, seed ^ k as u64);
             }
-            let (res, p) = cancel_after(starved(query_node(&t, *root), true), k).await;
+            let (res, p) = cancel_after(starved(query_node(&t, *root), true), k, eager).await;
             polls = p;
             // (the value of a completed target is C01's business, see C01-F1)
             completed = res.is_some();
             drop(t);
         }
         Target::OpenSession => {
-            let (res, p) = cancel_after(starved(engine.input_session(), true), k).await;
+            let (res, p) = cancel_after(starved(engine.input_session(), true), k, eager).await;
             polls = p;
             if let Some(s) = res {
                 completed = true;
@@ -266,7 +280,7 @@ async fn run_point<B: Backend>(b: &B, prog: &Arc<Program>, seed: u64, target: &T
             let mut s = engine.input_session().await;
             match target {
                 Target::SetInput(..) => {
-                    let (res, p) = cancel_after(starved(s.set_input(In(i), v), true), k).await;
+                    let (res, p) = cancel_after(starved(s.set_input(In(i), v), true), k, eager).await;
                     polls = p;
                     completed = res.is_some();
                     if completed {
@@ -277,7 +291,7 @@ async fn run_point<B: Backend>(b: &B, prog: &Arc<Program>, seed: u64, target: &T
                     s.commit().await;
                 }
                 Target::Update(..) => {
-                    let (res, p) = cancel_after(starved(s.update(In(i), move |_| v), true), k).await;
+                    let (res, p) = cancel_after(starved(s.update(In(i), move |_| v), true), k, eager).await;
                     polls = p;
                     completed = res.is_some();
                     if completed {
@@ -293,7 +307,7 @@ async fn run_point<B: Backend>(b: &B, prog: &Arc<Program>, seed: u64, target: &T
                         or.cells.insert(*x, 9);
                     }
                     or.refresh_in_epoch = true;
-                    let (res, p) = cancel_after(starved(s.refresh::<X>(), true), k).await;
+                    let (res, p) = cancel_after(starved(s.refresh::<X>(), true), k, eager).await;
                     polls = p;
                     completed = res.is_some();
                     // a cut-short refresh may have refreshed some cells and not others:
@@ -309,7 +323,7 @@ async fn run_point<B: Backend>(b: &B, prog: &Arc<Program>, seed: u64, target: &T
                 _ => {
                     s.set_input(In(i), v).await;
                     or.refr.inputs.insert(i, v);
-                    let (res, p) = cancel_after(starved(s.commit(), true), k).await;
+                    let (res, p) = cancel_after(starved(s.commit(), true), k, eager).await;
                     polls = p;
                     completed = res.is_some();
                 }
@@ -320,11 +334,15 @@ async fn run_point<B: Backend>(b: &B, prog: &Arc<Program>, seed: u64, target: &T
     hooks::set_yield(YieldPolicy::Off, 0);
 
     // ---- post-mortem -------------------------------------------------------
-    // let spawned guards finish
-    for _ in 0..64 {
-        tokio::task::yield_now().await;
+    // let spawned guards finish - or not: in `immediate` mode the very next
+    // thing the user does after dropping the future is to ask again, while a
+    // detached remainder of the operation may still be running
+    if settle {
+        for _ in 0..64 {
+            tokio::task::yield_now().await;
+        }
+        tokio::time::sleep(Duration::from_millis(2)).await;
     }
-    tokio::time::sleep(Duration::from_millis(2)).await;
 
     macro_rules! step {
         ($what:expr, $fut:expr) => {
@@ -360,15 +378,21 @@ async fn run_point<B: Backend>(b: &B, prog: &Arc<Program>, seed: u64, target: &T
         let (exp, _) = or.expect(&queryable);
         {
             let Some(t) = step!("tracked", engine.clone().tracked()) else { break 'pm };
-            if step!("prerepair", prerepair_tfc(&t, &crate::eng::topo_order(prog_ref, &all))).is_none() {
+            if raw.is_none() && step!("prerepair", prerepair_tfc(&t, &crate::eng::topo_order(prog_ref, &all))).is_none() {
                 break 'pm;
             }
             for n in &queryable {
                 let Some(v) = step!("re-query", query_node(&t, *n)) else { break 'pm };
+                if std::env::var("QV_C05_DEBUG").is_ok() {
+                    eprintln!("DEBUG C05 {target:?} k={k} immediate={immediate} polls={polls} completed={completed} requery {n:?} got {v} exp {}", exp[n]);
+                }
                 if v != exp[n] {
                     viol.push(("wrong-value-after-fault".into(), Json::obj().set("node", format!("{n:?}")).set("got", v).set("expected", exp[n])));
                 }
             }
+        }
+        if raw.is_some() {
+            break 'pm;
         }
         or.judge(&ctx.log.take(), false, true);
         // (3) change every leaf in turn
@@ -397,6 +421,10 @@ async fn run_point<B: Backend>(b: &B, prog: &Arc<Program>, seed: u64, target: &T
             }
             or.judge(&ctx.log.take(), false, true);
         }
+    }
+    if raw.is_some() {
+        let _ = bounded(shutdown(engine), 20).await;
+        return PointResult { polls, completed, violations: viol, inconclusive };
     }
     for (p, kind, d) in &or.violations {
         if p == "C01" {
@@ -489,6 +517,7 @@ async fn run_panic<B: Backend>(b: &B, prog0: &Arc<Program>, seed: u64, victim: N
     let mark = sup::panic_mark();
     let mut reached = false;
     let mut masked_by_f1 = 0u64;
+    let mut panic_via_backward_projection = 0u64;
     // every dependant on its own freshly built state, so that a stale
     // verification made on behalf of one query (C01-F1) cannot hide the panic
     // from the next
@@ -544,11 +573,24 @@ async fn run_panic<B: Backend>(b: &B, prog0: &Arc<Program>, seed: u64, victim: N
         let t = engine.clone().tracked().await;
         // (no panicking query has run on this state yet; C01-F1 is masked by
         // repairing the firewalls below the non-dependants at user level)
-        let _ = bounded(prerepair_tfc(&t, &crate::eng::topo_order(prog_ref, &others)), 20).await;
+        // (repairing a firewall re-executes the projections above it eagerly - backward
+        // projection - and such a projection may read the victim although the query the
+        // user asked for does not: the injected panic then legitimately reaches this
+        // caller too; it is counted, not flagged)
+        let _ = bounded(AssertUnwindSafe(prerepair_tfc(&t, &crate::eng::topo_order(prog_ref, &others))).catch_unwind(), 20).await;
         for n in &others {
-            match bounded(AssertUnwindSafe(query_node(&t, *n)).catch_unwind().map(|r| r.unwrap_or(i64::MIN)), 20).await {
-                Ok(v) if v != exp[n] => viol.push(("wrong-value-after-panic".into(), Json::obj().set("node", format!("{n:?}")).set("got", v).set("expected", exp[n]))),
-                Ok(_) => {}
+            match bounded(AssertUnwindSafe(query_node(&t, *n)).catch_unwind(), 20).await {
+                Ok(Ok(v)) if v != exp[n] => viol.push(("wrong-value-after-panic".into(), Json::obj().set("node", format!("{n:?}")).set("got", v).set("expected", exp[n]))),
+                Ok(Ok(_)) => {}
+                Ok(Err(payload)) => {
+                    let msg = payload.downcast_ref::<String>().cloned().unwrap_or_default();
+                    if msg.contains("injected executor panic") {
+                        masked_by_f1 += 0;
+                        panic_via_backward_projection += 1;
+                    } else {
+                        viol.push(("wrong-panic-payload".into(), Json::obj().set("node", format!("{n:?}")).set("payload", msg)));
+                    }
+                }
                 Err(_) => {
                     viol.push(("deadlock-after-panic".into(), Json::obj().set("node", format!("{n:?}"))));
                     break;
@@ -600,7 +642,7 @@ async fn run_panic<B: Backend>(b: &B, prog0: &Arc<Program>, seed: u64, victim: N
             viol.push(("panic-at-shutdown".into(), Json::obj().set("panics", sup::panics_since(mark2).join(" | "))));
         }
     }
-    let _ = masked_by_f1;
+    let _ = (masked_by_f1, panic_via_backward_projection);
     (viol, reached)
 }
 
@@ -615,7 +657,7 @@ impl Oracle {
 
 fn gen_target(r: &mut Rng, prog: &Program, ins: &[u32]) -> Target {
     let nodes: Vec<NodeId> = prog.nodes.keys().copied().collect();
-    match r.below(12) {
+    match r.below(14) {
         0..=5 => Target::Query(*r.pick(&nodes)),
         6 => Target::OpenSession,
         7 => Target::OpenSessionContended,
@@ -630,7 +672,7 @@ pub fn worker(ctx: &WorkerCtx) -> Report {
     hooks::install();
     let mut rep = Report::default();
     let base = Rng::new(ctx.seed).derive(500 + ctx.shard as u64);
-    let nprog: u64 = ctx.tier.pick(3, 30);
+    let nprog: u64 = ctx.pick(20, 200);
     let mut seen = std::collections::HashSet::new();
     for pi in 0..nprog {
         if let Ok(f) = std::env::var("QV_C05_PROG") {
@@ -657,7 +699,7 @@ pub fn worker(ctx: &WorkerCtx) -> Report {
             BackendSpec::Rec { cap: *r.pick(&[1u64, 8, 1 << 18]), workers: *r.pick(&[1usize, 2]), grouping: Grouping::Never, seed: r.next_u64() }
         };
         let rt = tokio::runtime::Builder::new_current_thread().enable_all().build().unwrap();
-        for ti in 0..ctx.tier.pick(4u64, 10) {
+        for ti in 0..ctx.pick(8u64, 16) {
             let target = gen_target(&mut r, &prog, &ins);
             if std::env::var("QV_C05_VICTIM").is_ok() {
                 continue;
@@ -665,21 +707,30 @@ pub fn worker(ctx: &WorkerCtx) -> Report {
             let case = format!("C05 prog {pi} target {ti} {target:?} backend={spec:?}");
             ctx.announce(&case);
             // pass 1: measure K
-            let run_mode = |k: usize, pre: bool| -> PointResult {
+            let run_raw = |k: usize, settle: bool| -> PointResult {
                 match &spec {
-                    BackendSpec::Mem => rt.block_on(run_point(&MemBackend, &prog, seed, &target, k, None, pre)),
+                    BackendSpec::Mem => rt.block_on(run_point(&MemBackend, &prog, seed, &target, k, None, false, false, Some(settle))),
                     s => {
                         let b = s.rec().unwrap();
-                        let sh = b.shared.clone();
-                        rt.block_on(run_point(&b, &prog, seed, &target, k, Some(&sh), pre))
+                        rt.block_on(run_point(&b, &prog, seed, &target, k, None, false, false, Some(settle)))
                     }
                 }
             };
-            let run = |k: usize| -> PointResult {
-                let res = run_mode(k, false);
+            let run_mode = |k: usize, pre: bool, immediate: bool| -> PointResult {
+                match &spec {
+                    BackendSpec::Mem => rt.block_on(run_point(&MemBackend, &prog, seed, &target, k, None, pre, immediate, None)),
+                    s => {
+                        let b = s.rec().unwrap();
+                        let sh = b.shared.clone();
+                        rt.block_on(run_point(&b, &prog, seed, &target, k, Some(&sh), pre, immediate, None))
+                    }
+                }
+            };
+            let run = |k: usize, immediate: bool| -> PointResult {
+                let res = run_mode(k, false, immediate);
                 let valueish = |kind: &str| kind.starts_with("wrong-value") || kind.starts_with("oracle:");
                 if matches!(target, Target::Query(_)) && !res.violations.is_empty() && res.violations.iter().all(|v| valueish(&v.0)) {
-                    let cf = run_mode(k, true);
+                    let cf = run_mode(k, true, immediate);
                     if cf.violations.is_empty() {
                         // attributed to the known finding C01-F1, not to cancellation
                         return PointResult { violations: vec![("__c01_f1".into(), Json::Null)], ..cf };
@@ -687,7 +738,7 @@ pub fn worker(ctx: &WorkerCtx) -> Report {
                 }
                 res
             };
-            let full = run(usize::MAX);
+            let full = run(usize::MAX, false);
             let kmax = full.polls;
             rep.max("polls_of_one_operation", kmax as u64);
             let mut ks: Vec<usize> = if ctx.tier == Tier::Thorough || kmax <= 12 {
@@ -702,13 +753,35 @@ pub fn worker(ctx: &WorkerCtx) -> Report {
                 v
             };
             ks.push(usize::MAX);
-            let mut results = vec![(usize::MAX, full)];
+            let mut results = vec![(usize::MAX, false, full)];
             for k in ks.iter().copied().filter(|k| *k != usize::MAX) {
-                results.push((k, run(k)));
+                results.push((k, false, run(k, false)));
+                results.push((k, true, run(k, true)));
+                // differential: ask again at once, with no user-level firewall repair in between
+                // (that repair yields to the scheduler and would let a detached remainder of the
+                // operation finish first). Wrong values that the same point shows after
+                // settling as well are the known finding C01-F1, not an effect of the drop.
+                let mut now = run_raw(k, false);
+                if !now.violations.is_empty() {
+                    let later = run_raw(k, true);
+                    let key = |v: &(String, Json)| format!("{}:{}", v.0, v.1.render());
+                    let base: std::collections::HashSet<String> = later.violations.iter().map(key).collect();
+                    let before = now.violations.len();
+                    now.violations.retain(|v| !base.contains(&key(v)));
+                    rep.count("raw_requery_wrong_values_also_seen_after_settling_C01-F1", (before - now.violations.len()) as u64);
+                    for v in &mut now.violations {
+                        v.0 = format!("{}-only-when-asked-before-detached-remainder-finished", v.0);
+                    }
+                }
+                rep.count("cancel_points_requeried_without_any_yield", 1);
+                results.push((k, true, now));
             }
-            for (k, res) in results {
+            for (k, immediate, res) in results {
                 rep.evaluations += 1;
                 rep.count("cancel_points", 1);
+                if immediate {
+                    rep.count("cancel_points_followed_immediately_by_requests", 1);
+                }
                 if k > 0 && k < kmax && !res.completed {
                     rep.count("cancel_points_inside_operation", 1);
                     rep.distinct.insert(h64(&(prog.shape_hash(), format!("{target:?}"), k)));
@@ -725,8 +798,8 @@ pub fn worker(ctx: &WorkerCtx) -> Report {
                     if seen.insert(sig.clone()) {
                         ctx.violation(&Violation {
                             signature: sig,
-                            what: format!("{kind} after dropping {target:?} at poll {k} of {kmax}: {}", d.render()),
-                            witness: Json::obj().set("case", case.as_str()).set("state_seed", seed).set("cancel_after_polls", k as u64).set("polls_when_not_cancelled", kmax).set("detail", d).set("program", prog.to_json()),
+                            what: format!("{kind} after dropping {target:?} at poll {k} of {kmax}{}: {}", if immediate { " (next request issued immediately)" } else { "" }, d.render()),
+                            witness: Json::obj().set("case", case.as_str()).set("state_seed", seed).set("cancel_after_polls", k as u64).set("immediate", immediate).set("polls_when_not_cancelled", kmax).set("detail", d).set("program", prog.to_json()),
                         });
                     } else {
                         rep.count("repeat_violations_same_signature", 1);
@@ -739,7 +812,7 @@ pub fn worker(ctx: &WorkerCtx) -> Report {
         }
         // panics: every executor node in turn
         let victims: Vec<NodeId> = prog.nodes.keys().copied().collect();
-        for v in victims.iter().take(ctx.tier.pick(4, 100)) {
+        for v in victims.iter().take(ctx.pick(8, 100)) {
             if let Ok(f) = std::env::var("QV_C05_VICTIM") {
                 if f != format!("{v:?}") {
                     continue;
